@@ -175,6 +175,30 @@ def equality_stage(chk, drv, b):
             chk.disagree("__eq__", {"schema": b.schema_line(), "line": ln}, r, w)
 
 
+def regrown_values(chk, b):
+    """the round trip of an object that was ALREADY encoded (and measured) once and then changed in place — lists appended
+    to, nested messages grown, no attribute assignment on the object itself: `parse(bytes(m))` must give the value it has
+    NOW.  (An encoder that remembers what it produced for this object returns the old bytes.)"""
+    from props.c09 import grow_in_place
+    for v in b.values[:6]:
+        ci = v[1]
+        try:
+            m = bpgen.to_py(v, b.classes)
+            first = bytes(m)
+            len(m)
+            if not grow_in_place(m):
+                continue
+        except Exception as e:
+            chk.count("regrown_skipped_" + type(e).__name__)
+            continue
+        chk.count("regrown_values")
+        inp = {"schema": b.describe(), "value": bpgen.term(v), "history": "regrown",
+               "steps": "bytes(m); len(m); containers grown in place (every non-empty list gets its first element appended, recursively); round trip"}
+        enc, m2 = oracle(chk, inp, m, b.classes[ci], b.schema, ci)
+        if isinstance(enc, bytes) and len(enc) <= len(first):
+            chk.fail("bytes-did-not-grow-after-in-place-growth", inp, "before %s, after %s" % (first.hex(), enc.hex()))
+
+
 def one_batch(chk, drv, b):
     if drv:
         assert drv.ask1(b.schema_line()) == "ok"
@@ -189,6 +213,7 @@ def one_batch(chk, drv, b):
         if enc is not None and m2 is not None:
             staged.append((v, ci, enc, m2))
     copied_values(chk, b)
+    regrown_values(chk, b)
     inplace_values(chk, drv, b)
     equality_stage(chk, drv, b)
     if drv and staged:
@@ -290,6 +315,14 @@ def replay(chk, rp):
         classes = bpgen.build_bp(schema)
         v = parse_term(inp["value"].split())[0]
         c = type(chk)(chk.pid, "quick", 0)
+        if inp.get("history") == "regrown":
+            class B:
+                pass
+            b = B()
+            b.schema, b.classes, b.values = schema, classes, [v]
+            b.describe = lambda: inp["schema"]
+            regrown_values(c, b)
+            return bool(c.oracle_failures)
         if "history" in inp:
             class B:
                 pass
